@@ -700,6 +700,118 @@ def rule_steer_lookup(ctx):
     ctx.floor("HDR.STEER-LOOKUP", 4)
 
 
+def _word_alternation(pattern):
+    """the literal words of a pattern that is nothing but an alternation of words (optionally grouped), else None; an
+    end anchor makes it a whole-word test and is reported as such"""
+    import re as _re
+    anchored = False
+    pat = pattern
+    if pat.startswith("^"):
+        pat = pat[1:]
+    for tail in ("$", "\\Z"):
+        if pat.endswith(tail):
+            pat, anchored = pat[:-len(tail)], True
+    while pat.startswith("(") and pat.endswith(")") and pat.count("(") == 1:
+        pat = pat[1:-1]
+        for lead in ("?:", "?i:"):
+            if pat.startswith(lead):
+                pat = pat[len(lead):]
+    if not pat or not _re.fullmatch(r"[A-Za-z0-9_]+(?:\|[A-Za-z0-9_]+)*", pat):
+        return None
+    return pat.split("|"), anchored
+
+
+def rule_mnemonic_tests(ctx):
+    """HDR.MNEM-TEST: a header item's mnemonic is identified by equality / membership, or by a regular expression that has to
+    match the whole of it.  `<alternation of words>.match(<mnemonic>)` is a *prefix* test: NULLVAL would be taken for NULL."""
+    from sa.consts import fold, module_env, NotConst, Regex
+    p = ctx.p
+    assert _word_alternation("VERS|WRAP|DLM") == (["VERS", "WRAP", "DLM"], False)      # positive control of the classifier
+    assert _word_alternation("(?:NULL)$") == (["NULL"], True) and _word_alternation(r"\s*~") is None
+    n = 0
+    for q, fi in sorted(p.functions.items()):
+        if fi.module.name not in ("las", "reader", "las_items") or isinstance(fi.node, ast.Lambda):
+            continue
+        env = module_env(p, fi.module.name)
+        defs = {}
+        for sub in walk_shallow(fi.node):
+            if isinstance(sub, ast.Assign) and len(sub.targets) == 1 and isinstance(sub.targets[0], ast.Name):
+                defs.setdefault(sub.targets[0].id, []).append(sub.value)
+
+        def from_mnemonic(e, depth=0):
+            for x in ast.walk(e):
+                if isinstance(x, ast.Attribute) and x.attr in ("mnemonic", "original_mnemonic", "useful_mnemonic"):
+                    return True
+            if depth < 3:
+                for x in ast.walk(e):
+                    if isinstance(x, ast.Name):
+                        for v in defs.get(x.id, ()):
+                            if not (isinstance(v, ast.Name) and v.id == x.id) and from_mnemonic(v, depth + 1):
+                                return True
+            return False
+
+        def regexes(e, depth=0):
+            """the regular expressions an expression may denote, or None"""
+            try:
+                v = fold(e, env)
+                if isinstance(v, Regex):
+                    return [v]
+                if isinstance(v, str):
+                    return [Regex(v, 0)]
+            except NotConst:
+                pass
+            except Exception:  # noqa - not a constant the folder understands
+                return None
+            if isinstance(e, ast.Name) and depth < 2 and e.id in defs:
+                out = []
+                for v in defs[e.id]:
+                    r_ = regexes(v, depth + 1)
+                    if r_ is None:
+                        return None
+                    out.extend(r_)
+                return out
+            # TABLE[<key>] / TABLE.get(<key>[, d]) over a constant table of expressions
+            tab = None
+            if isinstance(e, ast.Subscript):
+                tab = e.value
+            elif isinstance(e, ast.Call) and isinstance(e.func, ast.Attribute) and e.func.attr == "get" and e.args:
+                tab = e.func.value
+            if tab is not None:
+                try:
+                    t = fold(tab, env)
+                except Exception:  # noqa
+                    return None
+                if isinstance(t, dict) and t and all(isinstance(v, Regex) for v in t.values()):
+                    return list(t.values())
+            return None
+
+        for c in walk_shallow(fi.node):
+            if not (isinstance(c, ast.Call) and isinstance(c.func, ast.Attribute) and c.func.attr in ("match", "search") and c.args):
+                continue
+            if isinstance(c.func.value, ast.Name) and c.func.value.id == "re":
+                if len(c.args) < 2:
+                    continue
+                pat_e, subj = c.args[0], c.args[1]
+            else:
+                pat_e, subj = c.func.value, c.args[0]
+            if not from_mnemonic(subj):
+                continue
+            rs = regexes(pat_e)
+            if not rs:
+                continue
+            n += 1
+            site = "%s#%s(%s)" % (q, c.func.attr, unparse(subj, 30))
+            loose = [r_ for r_ in rs if (_word_alternation(r_.pattern) or (None, True))[1] is False]
+            if loose:
+                ctx.bad("HDR.MNEM-TEST", site, fi, c, "the mnemonic %s is tested with %s() against the word list /%s/ without an end "
+                        "anchor: every mnemonic that merely starts with one of the words (%s...) is taken for it"
+                        % (unparse(subj, 30), c.func.attr, loose[0].pattern, _word_alternation(loose[0].pattern)[0][0] + "VAL"))
+            else:
+                ctx.ok("HDR.MNEM-TEST", site, fi, c, "regular expression applied to a mnemonic is not a bare word list used as a prefix test")
+    ctx.ok("HDR.MNEM-TEST", "lasio#mnemonic-regex-tests", p.func("las.LASFile.read"), p.func("las.LASFile.read").node,
+           "%d regular-expression test(s) on mnemonics in las/reader/las_items; classifier self-test passed" % n, nontrivial=False)
+
+
 def rule_no_state(ctx):
     """The per-line parsing code keeps no state between lines: neither the line parser nor anything the header loop
     reaches writes module-level objects, and the dict handed back for a line is built inside the call."""
